@@ -40,13 +40,18 @@ func (dv *Router) advertSyncSendInterestImpl(prefix enc.Name) (err error) {
 		HopLimit:    utils.IdPtr(uint(2)), // use localhop w/ this
 	}
 
+	// Read our sequence number under the lock
+	dv.mutex.Lock()
+	seqNo := dv.advertSyncSeq
+	dv.mutex.Unlock()
+
 	// State Vector for our group
 	// TODO: switch to new TLV types
 	sv := &svs_2024.StateVectorAppParam{
 		StateVector: &svs_2024.StateVector{
 			Entries: []*svs_2024.StateVectorEntry{{
 				NodeId: dv.config.RouterName(),
-				SeqNo:  dv.advertSyncSeq,
+				SeqNo:  seqNo,
 			}},
 		},
 	}
